@@ -57,7 +57,7 @@ def generate_ops(rng, cfg, spec, tier) -> list[dict]:
     while len(ops) < n:
         r = rng.random()
         if r < 0.22:
-            nxt = rng.choice(["F0", "F1", "F1", "F2"])
+            nxt = rng.choice(["F0", "F1", "F1", "F2"] + (["F3", "F3"] if "F3" in cfg["fits"] else []))
             ops.append({"op": "fit", "fit": nxt})
             cur = nxt
             has_rot = False
